@@ -535,7 +535,7 @@ func runNative(lr *loadResult, reports []*harnessReport, tier string, seed int64
 				}
 			case "diff":
 				r.rep.DiffRuns++
-				if msg := r.diff.compare(o); msg == "" {
+				if msg := r.diff.compare(o, r.rep.Spec.PermuteMaps); msg == "" {
 					r.rep.DiffAgree++
 				} else {
 					r.rep.Inconclusive = append(r.rep.Inconclusive, "differential twin mismatch (engine vs native): "+msg+" inputs="+compactJSON(r.diff.model))
